@@ -97,6 +97,33 @@ def run(tier, seed):
         verdict.violation(f"lost_insert in {origin}: {v}",
                           {"property": PID, "violation": v, "origin": origin, "events": run_events[-60:]})
 
+    # S->I: schedules of the single-flight protocol generated by TLC (EngineConcGen) are forced on
+    # the real engine step by step through the cfg-guarded points (conc_sched)
+    sched_cases = os.path.join(wd, "sched.cases")
+    g = vp.run(["python3", os.path.join(vp.ROOT, "tools", "gen_conc.py"), sched_cases, str(seed), "60" if quick else "1500"],
+               timeout=2400, env={"VH_TMP": vp.workdir(PID, "tlcgen")})
+    ginfo = json.loads(g.stdout.strip().splitlines()[-1])
+    sched_tr = os.path.join(wd, "sched.ndjson")
+    sched_res = os.path.join(wd, "sched.res")
+    vp.run_subject([os.path.join(bd, "conc_sched"), "--in", sched_cases, "--out", sched_tr, "--res", sched_res],
+                   timeout=3000)
+    sres = vp.read_ndjson(sched_res)
+    scases = vp.read_ndjson(sched_cases)
+    sched_info = {"behaviours_generated_by_TLC": ginfo["behaviours"], "steps": ginfo["steps"],
+                  "distinct_schedules": len({json.dumps(c["steps"]) for c in scases}),
+                  "steps_followed_exactly": sum(r["followed"] for r in sres),
+                  "schedules_followed_to_the_end": sum(1 for r in sres if r["drift"] is None and not r["hang"]),
+                  "model_drift": sum(1 for r in sres if r["drift"] is not None and not r["hang"]),
+                  "first_drift": next((r for r in sres if r["drift"] is not None and not r["hang"]), None),
+                  "blocked_under_schedule_but_completed_freely": sum(1 for r in sres if r.get("blocked") and not r["hang"]),
+                  "hangs": sum(1 for r in sres if r["hang"])}
+    states += ginfo["steps"]
+    for r in [r for r in sres if r["hang"]][:3]:
+        verdict.violation(f"no_progress: schedule {r['case']} of the single-flight protocol does not complete, not even "
+                          f"when the tasks run freely after step {r['followed']} ({r['drift']})",
+                          {"property": PID, "kind": "no_progress", "origin": "EngineConcGen schedule replay",
+                           "case": scases[r["case"]], "result": r})
+
     plans = [("normal", 2, 12, 14), ("normal", 8, 24, 14), ("fanin", 16, 32, 6), ("fanin", 4, 16, 6),
              ("mixed", 8, 16, 10)]
     if not quick:
@@ -114,6 +141,7 @@ def run(tier, seed):
                 "--tasks", "64", "--runs", "2", "--phases", "1", "--seed", str(seed), "--out", tr], timeout=3000)
         traces.append((tr, "fanin", "fanin 1100 workers=16"))
 
+    traces.append((sched_tr, "normal", "EngineConcGen schedule replay"))
     events = 0
     stats = {}
     by_kind = {}
@@ -153,10 +181,13 @@ def run(tier, seed):
     coverage = {
         "states": states, "transitions": trans,
         "traces_validated_against_impl": nruns + bes_info["schedules_replayed"] + 1,
+        "schedules_forced_on_impl": len(sres),
         "samples": [{"backward_edge_set_schedule": bes_chosen[0]},
+                    {"single_flight_schedule": scases[0] if scases else None},
                     {"engine_run_plan": [p[:3] for p in plans]}],
         "backward_edge_set": bes_info,
         "single_flight_protocol_model": single_flight_model,
+        "single_flight_schedule_replay": sched_info,
         "engine_runs": nruns,
         "events_validated": events,
         "checked": stats,
